@@ -62,6 +62,17 @@ def build(ck, sr, cfgs, seeds):
                 i = len(scripts)
                 scripts.append(full + " ; app %s 63 ; save %s 4 ; xor %s LAST 80 ; step %s ; replay %s 4 ; app %s 64 ; app %s 65 ; step %s ; st" % (other, din, din, din, side, side, other, din))
                 inj_desc[i] = [None]; meta.append((name, n, side, "est:corrupt"))
+                # a misbehaving authenticated peer: correctly protected but illegal messages on an established session
+                for (rt, ht, body, nm, must_die) in ((22, 0, "-", "HelloRequest", side == "s"),          # only servers send it
+                                                     (22, 1, "0303" + "00" * 32 + "00", "ClientHello", side == "c"),   # only clients send it
+                                                     (22, 20, "00" * 12, "Finished", True), (22, 14, "-", "ServerHelloDone", True),
+                                                     (22, 11, "000000", "Certificate", True), (20, 0, "01", "ChangeCipherSpec", True)):
+                    if "cv=4" in cfg and rt == 20:
+                        continue        # TLS 1.3 ignores CCS records by design
+                    i = len(scripts)
+                    scripts.append(full + " ; forge %s %d %d %s ; step %s ; step %s 3 ; app %s 6869 ; step %s ; app %s 6a ; st" % (
+                        other, rt, ht, body, din, "s2c" if din == "c2s" else "c2s", other, din, side))
+                    meta.append((name, n, side, "illegal:%s:%s" % (nm, "must-die" if must_die else "may-refuse")))
                 # orderly closure from the peer, then more data
                 i = len(scripts)
                 scripts.append(full + " ; closure %s ; step %s ; app %s 66 ; app %s 67 ; step %s ; st" % (other, din, side, other, din))
@@ -110,6 +121,20 @@ def run(ck):
                     "non-trivial = step not refused by the dead-session guard")
     # ---- Impl vs Spec, per script and per side: after death nothing is delivered, nothing is sealed, receives fail
     for si, out in enumerate(outs):
+        if meta[si][3].startswith("illegal:") and meta[si][3].endswith("must-die"):
+            x = meta[si][2]
+            segs = out.split(" | ")
+            k = max(i for i, sg in enumerate(segs) if sg.strip().startswith("forge:"))
+            later = " | ".join(segs[k + 2:])            # after the delivery of the forged record
+            got = [a for st in parse_steps(later) if st.side == x for a in st.appdata]
+            sent = sesslib.re.search(r"app:%s pre=\S+ rc=OK" % x, later)
+            if got or sent:
+                ck.spec_violation("illegal-message-survived:%s:%s" % (meta[si][3].split(":")[1], "v13" if "cv=4" in scripts[si] else "v12"),
+                                  "a correctly protected but illegal %s left the %s session usable (delivered %s, send accepted: %s)" % (
+                                      meta[si][3].split(":")[1], "server" if x == "s" else "client", got, bool(sent)),
+                                  {"harness": "h_sess", "script": scripts[si], "observed": out[-900:], "scenario": meta[si]})
+            else:
+                ck.count("illegal_message_killed_session")
         dead = {"c": None, "s": None}
         segs = out.split(" | ")
         cmds = scripts[si].split(" ; ")
@@ -129,7 +154,8 @@ def run(ck):
                         ck.count("refused_after_death")
                 # does this step kill side x?
                 ob = st.observed() or ""
-                fatal_out = ob.startswith("AlertOut") or any(r[1] == 21 or r[0] == 21 for r in st.out_recs)
+                # a fatal alert going out: ssl->err is set (warning alerts such as the no_renegotiation refusal clear it again)
+                fatal_out = ob.startswith("AlertOut")
                 fatal_in = any((st.pre["v"] == 1 and d != 0) or l == 2 for l, d in st.alerts_in)
                 close_in = any(d == 0 for l, d in st.alerts_in)
                 if (fatal_out or fatal_in or (st.errs and not st.appdata)) and not dead[x]:
@@ -139,6 +165,10 @@ def run(ck):
                                           {"harness": "h_sess", "script": scripts[si], "observed": out[-800:], "scenario": meta[si]})
                 elif close_in and not dead[x]:
                     dead[x] = "received close_notify"
+                # the peer's view: whoever sent a fatal-level alert (as decoded by the receiver) must be dead too
+                y = "s" if x == "c" else "c"
+                if fatal_in and st.kind == "step" and not dead[y]:
+                    dead[y] = "sent a fatal alert"
             m = sesslib.re.match(r"app:([cs]) pre=(\S+) rc=(\S+)", seg)
             if m:
                 x, ok = m.group(1), m.group(3) == "OK"
